@@ -33,7 +33,7 @@ class ComponentLevel7( ComponentLevel6 ):
         return method( s, *args, **kwargs )
       return _bound_method
 
-    for x in s.__class__.__dict__:
+    for x in s._user_class_attributes():
       method = getattr( s, x )
 
       # We identify decorated method port here
